@@ -208,4 +208,5 @@ func main() {
 	genBoolFns(repo, out)
 	genPathFns(repo, out)
 	genExpandSites(repo, out)
+	genWithDefaults(repo, out)
 }
